@@ -925,6 +925,9 @@ func c07(c *core.Ctx) {
 		c.Check("Account.Save:clears-dirty-flag", "paired-effect", cleared, save.Pos(), "every successful Save of an account with the dirty flag set clears it")
 	})
 
+	c.Clause("C07.9", "merging drops only logs that changed nothing: every old/new comparison of IsValuable is an (in)equality (clause C12.7, evaluated here as well)")
+	c.Run("IsValuable-symmetric", func() { c12IsValuable(c) })
+
 	c.Clause("C07.8", "the journal is used all-or-nothing: in each of the six EVM entry points every path on which the frame ends in an error — also the conditions that only become an error later, like an oversized created code — passes RevertToSnapshot with the frame's snapshot (clause C16.4, evaluated here as well)")
 	c.Run("evm-revert", func() { c16Revert(c) })
 
